@@ -52,6 +52,10 @@ var (
 	// IdentityCodePattern is the regular expression pattern used to validate tax identity codes.
 	IdentityCodePattern = `^[A-Z0-9]+$`
 
+	// IdentityCodeSchemaPattern is the pattern published in the JSON Schema: the generic
+	// pattern widened with the characters accepted for the countries in IdentityCodeValidationIgnore.
+	IdentityCodeSchemaPattern = `^[A-Z0-9Ñ&]+$`
+
 	// IdentityCodePatternRegexp is the regular expression used to validate tax identity codes.
 	IdentityCodePatternRegexp = regexp.MustCompile(IdentityCodePattern)
 
@@ -184,7 +188,12 @@ func (v validateTaxID) Validate(value interface{}) error {
 // JSONSchemaExtend adds extra details to the schema.
 func (Identity) JSONSchemaExtend(js *jsonschema.Schema) {
 	if cp, ok := js.Properties.Get("code"); ok {
-		cp.Pattern = IdentityCodePattern
+		// Codes are validated per country by the regimes and countries listed in
+		// IdentityCodeValidationIgnore skip the generic rules (Mexican codes may
+		// contain "&" and "Ñ"), so the schema must not be stricter than that.
+		cp.Ref = ""
+		cp.Type = "string"
+		cp.Pattern = IdentityCodeSchemaPattern
 	}
 	js.Extras = map[string]any{
 		schema.Recommended: []string{
